@@ -5,6 +5,12 @@ import json, subprocess
 HOOK_COMMITS = ["9b212f4"]
 
 CLAIMED = {
+ "C02": dict(level="exploration", technique="relational (metamorphic) monitor: p vs Parse(p.String()) and the four marshalling routes, trees compared through exported accessors, behaviour through typed Query results; violations attributed by neutralising recorded printer-defect triggers",
+   text="Every path the parser accepts from an exhaustive operator x operand-shape x context matrix, every code point of a boundary set as key/string/variable, the numeric boundary grid in every spelling, all .** bounds, all regex flag subsets and random generated paths is printed and re-parsed; parse success, fixed point, same mode/predicate flag/tree, same typed results, and the same through MarshalText/UnmarshalText, MarshalBinary/UnmarshalBinary, Value/Scan are asserted.",
+   note="Only parser-reachable trees. A violation is attributed to a recorded printer defect only if the defect's trigger is in the tree AND the tree with the triggers neutralised round-trips cleanly."),
+ "C03": dict(level="exploration", technique="model-based monitor: the abstract tree a text was spelled from is the ground truth; random and exhaustive spellings from the documented alternatives",
+   text="Abstract paths are spelled with random choices among the documented lexical/syntactic alternatives (separators, comments, keyword case, key/string escapes, number forms, <> vs !=, redundant or minimal parentheses); Parse must accept each and return exactly the abstract tree (sign folding normalised); the operator-pair precedence matrix and the last-token matrix are enumerated; IsPredicate/PgIndexOperator must match the abstract top level.",
+   note="Only spellings the documentation permits are generated; literal values are carried by the abstract tree (int64 / float64 / code points), not re-derived from the text."),
  "C05": dict(level="exploration", technique="universal runtime monitors on every call (recover(), error-taxonomy assertions, deep before/after comparison of inputs, finiteness and sub-value membership of results) over an exhaustive operand-kind matrix and random workloads; crash-isolated workers with journal",
    text="Every binary/unary operator, predicate and method is applied to every pair of a value-kind corpus (incl. out-of-range json.Numbers and each datetime type) through all five entry points, lax/strict, silent/verbose, with/without WithTZ, plus the random workload and deep/long documents; on each call the monitors assert no panic, the error taxonomy, ErrInvalid never returned, inputs unmodified, results finite and made of sub-values.",
    note="Sub-value membership by canonical value. A fatal runtime error (stack overflow) kills the worker and is attributed through the journal."),
